@@ -594,6 +594,53 @@ func c06ResourceBody(x *mc.Exec, order bool) {
 	if !ok || !reflect.DeepEqual(gs, ws) {
 		x.Fail(sig+":to-many", "payload %s: to-many is %v, payload lists %v", payload, res.Get("many"), mo.den)
 	}
+	// the same payload through the partial entry point: every attribute member and every
+	// relationship with a data member (null included) is present and holds the same value
+	if !order {
+		var part *j.SoftResource
+		var perr error
+		if pp := Try(func() { part, perr = j.UnmarshalPartialResource([]byte(payload), schema) }); pp != "" || perr != nil || part == nil {
+			x.Fail(sig+":partial-rejected", "payload %s: UnmarshalPartialResource: panic %q error %v", payload, pp, perr)
+			return
+		}
+		x.R.Add("transitions", 1)
+		present := map[string]bool{}
+		for _, pr := range []struct{ n, js string }{{"one", oo.js}, {"two", to.js}, {"many", mo.js}} {
+			if strings.Contains(pr.js, `"data"`) {
+				present[pr.n] = true
+			}
+		}
+		for _, pt := range parts {
+			var n string
+			_ = json.Unmarshal([]byte(pt[:strings.Index(pt, ":")]), &n)
+			present[n] = true
+		}
+		if pp := Try(func() {
+			for _, n := range SortedKeys(present) {
+				_, isA := part.Attrs()[n]
+				_, isR := part.Rels()[n]
+				switch {
+				case !isA && !isR:
+					x.Fail(sig+":partial-missing", "payload %s: partial unmarshaling does not report field %q, which the payload sets", payload, n)
+				case isA && !SameAttrValue(part.Get(n), res.Get(n)):
+					x.Fail(sig+":partial-attr", "payload %s: partial unmarshaling stores %s in %q, the payload denotes %s", payload, ShowVal(part.Get(n)), n, ShowVal(res.Get(n)))
+				case isR && n == "many":
+					a, _ := part.Get(n).([]string)
+					b, _ := res.Get(n).([]string)
+					a, b = append([]string{}, a...), append([]string{}, b...)
+					sort.Strings(a)
+					sort.Strings(b)
+					if len(a) != len(b) || (len(a) > 0 && !reflect.DeepEqual(a, b)) {
+						x.Fail(sig+":partial-to-many", "payload %s: partial unmarshaling stores %v in %q, the payload lists %v", payload, part.Get(n), n, res.Get(n))
+					}
+				case isR && n != "many" && part.Get(n) != res.Get(n):
+					x.Fail(sig+":partial-to-one", "payload %s: partial unmarshaling stores %v in %q, the payload says %v", payload, part.Get(n), n, res.Get(n))
+				}
+			}
+		}); pp != "" {
+			x.Fail(sig+":partial-panic", "payload %s: reading the partial resource panicked: %s", payload, pp)
+		}
+	}
 	// re-marshal reproduces id, type, attributes and linkage as the same JSON values
 	var out []byte
 	if p := Try(func() { out = j.MarshalResource(res, "", FieldNames(res.GetType()), AllRelData(schema)) }); p != "" {
@@ -762,7 +809,7 @@ func c06Collection(x *mc.Exec) {
 func init() {
 	Register(&Prop{
 		ID: "C06",
-		Rule: "Engine A, all choices Full: (a) 20 integer kinds x every integer literal in [-70000,70000] (exhaustive for 8/16-bit kinds and their out-of-range neighbourhood) + +-2^k+{-2..2} (k<=70) + +-10^k+{-1,0,1} (k<=21) + fractions/exponents/-0/null/true/false/strings/arrays, each through Attr.UnmarshalToType and through UnmarshalResource (soft and struct-backed); (b) string/bool/time/bytes kinds x alphabet in 3 JSON encodings, RFC3339 offsets x precisions, near-miss invalid times, canonical and non-canonical base64 (a decoded byte string must be non-nil: the empty string is not null), wrong JSON kinds; (c) whole payloads: 3^5 attribute presence/value combinations x 5 x 4 forms of two to-one relationships x 7 to-many forms x 3 ids x 2 implementations, re-marshaled and re-read; a reduced product (2 attributes) under every iteration order of one member map inside UnmarshalResource (deviation bound 1). (d) collections of 2-3 members over 6 member variants (full, minimal, partial, empty linkage, other type, no id) through UnmarshalCollection and UnmarshalDocument, each member compared with the same object read alone. Oracle: accepted => stored value equals the math/big / own-unescaper / time.Parse / encoding/base64 reading of the literal; non-trivial = literal that is out of range, fractional, of the wrong kind, or a whole payload",
+		Rule: "Engine A, all choices Full: (a) 20 integer kinds x every integer literal in [-70000,70000] (exhaustive for 8/16-bit kinds and their out-of-range neighbourhood) + +-2^k+{-2..2} (k<=70) + +-10^k+{-1,0,1} (k<=21) + fractions/exponents/-0/null/true/false/strings/arrays, each through Attr.UnmarshalToType and through UnmarshalResource (soft and struct-backed); (b) string/bool/time/bytes kinds x alphabet in 3 JSON encodings, RFC3339 offsets x precisions, near-miss invalid times, canonical and non-canonical base64 (a decoded byte string must be non-nil: the empty string is not null), wrong JSON kinds; (c) whole payloads: 3^5 attribute presence/value combinations x 5 x 4 forms of two to-one relationships x 7 to-many forms x 3 ids x 2 implementations, also read through UnmarshalPartialResource (every member present holds the same value), re-marshaled and re-read; a reduced product (2 attributes) under every iteration order of one member map inside UnmarshalResource (deviation bound 1). (d) collections of 2-3 members over 6 member variants (full, minimal, partial, empty linkage, other type, no id) through UnmarshalCollection and UnmarshalDocument, each member compared with the same object read alone. Oracle: accepted => stored value equals the math/big / own-unescaper / time.Parse / encoding/base64 reading of the literal; non-trivial = literal that is out of range, fractional, of the wrong kind, or a whole payload",
 		Assumptions: []string{"no completeness demand: exotic spellings may be rejected; only 'accepted => exact' is judged", "a panic counts as not accepted here (panic freedom is C05)"},
 		Harnesses: []Harness{
 			{Name: "C06/int", Body: c06Int, ShardDepth: 1},
